@@ -117,10 +117,14 @@ class Inliner:
                 return n
 
             def visit_ListComp(self, n):
-                # comprehension variables shadow locals: only the outermost iterable is inlined
-                n = copy.copy(n)
-                n.generators = [copy.copy(g) for g in n.generators]
-                n.generators[0].iter = self.visit(n.generators[0].iter)
+                # comprehension variables shadow locals: every other name in the comprehension is inlined
+                bound = {x.id for g in n.generators for x in ast.walk(g.target) if isinstance(x, ast.Name)}
+                added = bound - me.keep
+                me.keep |= added
+                try:
+                    n = self.generic_visit(n)
+                finally:
+                    me.keep -= added
                 return n
             visit_GeneratorExp = visit_SetComp = visit_DictComp = visit_ListComp
         out = T().visit(copy.deepcopy(expr))
